@@ -51,6 +51,7 @@
 #undef private
 #undef protected
 
+#include "art.hpp"
 #include "olc_art.hpp"
 
 #include "dsched.hpp"
@@ -60,10 +61,14 @@ namespace {
 namespace vk = dsched::vk;
 using db_t = unodb::olc_db<std::uint64_t, unodb::value_view>;
 
+// markers in the event log around every get / insert / remove (for the read-protocol acceptor)
+constexpr unsigned op_begin_kind = 1000, op_end_kind = 1001;
+
 struct op {
   char kind;  // G I R S F Q q
   std::uint64_t a{0}, b{0};
   bool fwd{true};
+  unsigned halt{0};  // scans: the visitor halts the scan at its halt-th call (0: never)
 };
 
 struct call_rec {
@@ -82,6 +87,8 @@ struct scan_rec {
   bool fwd;
   unsigned long inv, ret;
   std::vector<std::pair<std::uint64_t, std::uint64_t>> seen;
+  std::vector<unsigned long> stamps;  // clock value at each visitor call
+  bool halted{false};
 };
 
 struct held_view {
@@ -113,6 +120,10 @@ std::vector<std::vector<op>> parse_progs(const std::string& s) {
     while (std::getline(as, a, ';')) {
       if (a.empty()) continue;
       op o;
+      if (auto bang = a.find('!'); bang != std::string::npos) {
+        o.halt = static_cast<unsigned>(std::stoul(a.substr(bang + 1)));
+        a = a.substr(0, bang);
+      }
       o.kind = a[0];
       if (o.kind == 'G' || o.kind == 'I' || o.kind == 'R') o.a = std::stoull(a.substr(1), nullptr, 16);
       if (o.kind == 'S') o.fwd = a[1] == 'f';
@@ -169,6 +180,7 @@ void run_thread(exec_state& st, const std::vector<op>& prog, int tid, bool qs_ev
       r.kind = o.kind;
       r.key = o.a;
       r.inv = st.clock.fetch_add(1);
+      if (auto hk = unodb::detail::verif::obs_hook.load()) hk(op_begin_kind, nullptr, static_cast<std::uint64_t>(o.kind), o.a, 0);
       if (o.kind == 'G') {
         auto g = st.db->get(o.a);
         r.ok = g.has_value();
@@ -183,6 +195,7 @@ void run_thread(exec_state& st, const std::vector<op>& prog, int tid, bool qs_ev
       } else {
         r.ok = st.db->remove(o.a);
       }
+      if (auto hk = unodb::detail::verif::obs_hook.load()) hk(op_end_kind, nullptr, r.ok ? 1 : 0, 0, 0);
       r.ret = st.clock.fetch_add(1);
       std::lock_guard<std::mutex> l(st.mu);
       st.calls.push_back(r);
@@ -201,12 +214,19 @@ void run_thread(exec_state& st, const std::vector<op>& prog, int tid, bool qs_ev
         const std::byte* p = val.begin().get();
         std::memcpy(&vv, p, std::min<std::size_t>(val.size(), 8));
         s.seen.emplace_back(key_of_view(k), vv);
+        s.stamps.push_back(st.clock.fetch_add(1));
         st.held[static_cast<std::size_t>(tid)].push_back(held_view{p, val.size(), vv});
+        if (o.halt != 0 && s.seen.size() == o.halt) {
+          s.halted = true;
+          return true;
+        }
         return false;
       };
+      if (auto hk = unodb::detail::verif::obs_hook.load()) hk(op_begin_kind, nullptr, static_cast<std::uint64_t>(o.kind), o.a, 0);
       if (o.kind == 'S') st.db->scan(fn, o.fwd);
       if (o.kind == 'F') st.db->scan_from(o.a, fn, o.fwd);
       if (o.kind == 'Q') st.db->scan_range(o.a, o.b, fn);
+      if (auto hk = unodb::detail::verif::obs_hook.load()) hk(op_end_kind, nullptr, 1, 0, 0);
       s.ret = st.clock.fetch_add(1);
       std::lock_guard<std::mutex> l(st.mu);
       st.scans.push_back(s);
@@ -241,6 +261,7 @@ struct block {
   bool locked_once;   // a lock event has been seen on it: initialisation is over
   int writer;         // current write-guard holder or -1
   int dead_owner = -1;  // thread that marked it obsolete (it may finish unlinking the dead node: no reader can validate it)
+  bool retired = false; // handed to deferred reclamation
 };
 
 // post-execution analysis of the event log: use of freed nodes, stores without the node's write lock
@@ -259,7 +280,7 @@ void analyse(const dsched::result& res, exec_state& st, const db_t* db, std::vec
     --it;
     return (a >= it->second.lo && a < it->second.hi) ? &it->second : nullptr;
   };
-  bool uaf_reported = false, disc_reported = false;
+  bool uaf_reported = false, disc_reported = false, direct_free_reported = false;
   for (const auto& e : res.log) {
     const auto a = reinterpret_cast<std::uintptr_t>(e.addr);
     if (e.kind == vk::mem_alloc) {
@@ -274,6 +295,11 @@ void analyse(const dsched::result& res, exec_state& st, const db_t* db, std::vec
     if (e.kind == vk::mem_free) {
       auto it = live.find(a);
       if (it != live.end()) {
+        if (it->second.locked_once && !it->second.retired && it->second.owner >= -1 && !direct_free_reported && e.tid >= 0) {
+          direct_free_reported = true;
+          st.problems.push_back("C04: thread " + std::to_string(e.tid) +
+                                " handed a node that had been shared (its lock was used) straight back to the allocator instead of to deferred reclamation");
+        }
         if (trace_out) trace_out->push_back("E " + std::to_string(e.tid) + " FREE " + std::to_string(it->second.id) + " 0 0 0");
         freed[a] = it->second;
         live.erase(it);
@@ -282,7 +308,20 @@ void analyse(const dsched::result& res, exec_state& st, const db_t* db, std::vec
     }
     if (e.kind == vk::mem_retire) {
       block* b = find_in(live, a);
+      if (b) {
+        if (b->retired && !direct_free_reported) {
+          direct_free_reported = true;
+          st.problems.push_back("C04: a node was handed to deferred reclamation twice");
+        }
+        b->retired = true;
+      }
       if (trace_out && b) trace_out->push_back("E " + std::to_string(e.tid) + " RETIRE " + std::to_string(b->id) + " 0 0 0");
+      continue;
+    }
+    if (e.kind == op_begin_kind || e.kind == op_end_kind) {
+      if (trace_out)
+        trace_out->push_back("E " + std::to_string(e.tid) + (e.kind == op_begin_kind ? " OPBEGIN 0 0 " : " OPEND 0 0 ") +
+                             std::to_string(e.a) + " " + std::to_string(e.b));
       continue;
     }
     const bool lock_ev = e.kind >= vk::lock_load && e.kind <= vk::lock_obsolete;
@@ -437,6 +476,36 @@ int main(int argc, char** argv) {
     std::vector<std::string> trace;
     if (!sweep.deadlock && !sweep.budget_exceeded && !res.deadlock && !res.budget_exceeded)
       analyse(all, st, st.db.get(), &trace);
+#ifdef UNODB_DETAIL_WITH_STATS
+    // C10 after a concurrent phase, all threads quiesced: node counts and memory use are those of a sequential index
+    // with the same content; every growing / shrinking counter movement corresponds to a node created or replaced
+    if (!sweep.deadlock && !sweep.budget_exceeded && !res.deadlock && !res.budget_exceeded) {
+      unodb::db<std::uint64_t, unodb::value_view> ref;
+      std::vector<std::pair<std::uint64_t, std::vector<std::byte>>> content;
+      st.db->scan([&](const auto& v) {
+        auto val = v.get_value();
+        content.emplace_back(key_of_view(v.get_key()), std::vector<std::byte>(val.begin().get(), val.begin().get() + val.size()));
+        return false;
+      });
+      for (auto& kv : content) (void)ref.insert(kv.first, unodb::value_view{kv.second.data(), kv.second.size()});
+      const auto nc = st.db->get_node_counts();
+      const auto rc = ref.get_node_counts();
+      bool same = true;
+      for (std::size_t i = 0; i < nc.size(); ++i) same = same && nc[i] == rc[i];
+      if (!same) st.problems.push_back("C10: node counts after the concurrent phase differ from those of a sequential index with the same content");
+      const auto gc = st.db->get_growing_inode_counts();
+      const auto sc = st.db->get_shrinking_inode_counts();
+      for (std::size_t c = 0; c < 4; ++c) {
+        const long long made = static_cast<long long>(gc[c]) + (c + 1 < 4 ? static_cast<long long>(sc[c + 1]) : 0);
+        const long long gone = static_cast<long long>(sc[c]) + (c + 1 < 4 ? static_cast<long long>(gc[c + 1]) : 0);
+        if (made - gone != static_cast<long long>(nc[c + 1]))
+          st.problems.push_back("C10: growing/shrinking counters of inode class " + std::to_string(c) +
+                                " moved without a node being created or replaced (created " + std::to_string(made) + ", replaced " +
+                                std::to_string(gone) + ", present " + std::to_string(nc[c + 1]) + ")");
+      }
+      unodb::this_thread().quiescent();
+    }
+#endif
     const bool bad = !st.problems.empty();
     if (bad) ++nproblems;
     std::string line = "X";
@@ -448,8 +517,9 @@ int main(int argc, char** argv) {
                   static_cast<unsigned long long>(c.val), c.ok ? 1 : 0, static_cast<unsigned long long>(c.got), c.inv, c.ret);
     for (auto& s : st.scans) {
       std::string l = "V " + std::to_string(s.tid) + " " + std::to_string(s.inv) + " " + std::to_string(s.ret) + " " + s.kind + " " +
-                      std::to_string(s.a) + " " + std::to_string(s.b) + " " + (s.fwd ? "f" : "r") + " :";
-      for (auto& kv : s.seen) l += " " + std::to_string(kv.first) + "=" + std::to_string(kv.second);
+                      std::to_string(s.a) + " " + std::to_string(s.b) + " " + (s.fwd ? "f" : "r") + " " + (s.halted ? "h" : "c") + " :";
+      for (std::size_t i = 0; i < s.seen.size(); ++i)
+        l += " " + std::to_string(s.seen[i].first) + "=" + std::to_string(s.seen[i].second) + "@" + std::to_string(s.stamps[i]);
       std::puts(l.c_str());
     }
     if (want_trace || bad)
